@@ -505,6 +505,29 @@ fn nested_catalog() -> Vec<ZoneSpec> {
     ]
 }
 
+/// Delegations one, two and three labels below the apex, with in-bailiwick
+/// glue at and below the cut (the glue search must ignore cuts at any depth),
+/// sibling glue below another deep cut, and an in-zone server at depth.
+fn deep_cut_catalog() -> Vec<ZoneSpec> {
+    let cl = c::IN;
+    let mut recs = base_zone(cl, 3, 5);
+    recs.push(rec("d1.t.", t::NS, cl, 40, &wname("ns.d1.t.")));
+    recs.push(rec("ns.d1.t.", t::A, cl, 41, &a_rdata(1)));
+    recs.push(rec("d2.e.t.", t::NS, cl, 42, &wname("ns.d2.e.t.")));
+    recs.push(rec("d2.e.t.", t::NS, cl, 42, &wname("ns.x.d2.e.t.")));
+    recs.push(rec("d2.e.t.", t::NS, cl, 42, &wname("ns.d3.f.e.t."))); // sibling glue below another deep cut
+    recs.push(rec("d2.e.t.", t::NS, cl, 42, &wname("h.g.e.t."))); // in-zone server at depth
+    recs.push(rec("ns.d2.e.t.", t::A, cl, 43, &a_rdata(2)));
+    recs.push(rec("ns.x.d2.e.t.", t::AAAA, cl, 44, &aaaa_rdata(3)));
+    recs.push(rec("d3.f.e.t.", t::NS, cl, 45, &wname("NS.d3.f.e.t.")));
+    recs.push(rec("ns.d3.f.e.t.", t::A, cl, 46, &a_rdata(4)));
+    recs.push(rec("ns.d3.f.e.t.", t::AAAA, cl, 47, &aaaa_rdata(4)));
+    recs.push(rec("h.g.e.t.", t::A, cl, 48, &a_rdata(5)));
+    recs.push(rec("mx.t.", t::MX, cl, 49, &mx_rdata(1, &wname("h.g.e.t."))));
+    recs.push(rec("mx.t.", t::MX, cl, 49, &mx_rdata(2, &wname("ns.d2.e.t.")))); // target below a cut
+    vec![ZoneSpec { apex: wname("t."), class: cl, recs }]
+}
+
 /// A root zone (the apex has no labels).
 fn root_catalog() -> Vec<ZoneSpec> {
     let cl = c::IN;
@@ -552,6 +575,7 @@ fn structured_catalogs() -> Vec<Structured> {
     }
     out.push(Structured { tag: "nested".into(), catalog: nested_catalog() });
     out.push(Structured { tag: "root".into(), catalog: root_catalog() });
+    out.push(Structured { tag: "deep-cuts".into(), catalog: deep_cut_catalog() });
     out
 }
 
